@@ -15,7 +15,7 @@ VSTOf(code) == << << code % 256, ((code \div 256) % 32) - 8 >>, (code \div 8192)
 SeqToVS(q) == [i \in 1 .. Len(q) |-> VSOf(q[i])]
 Tail2(q) == [i \in 1 .. Len(q) - 2 |-> VSOf(q[i + 2])]
 
-CfgOf(r) == [views |-> r.numViews, maxSeg |-> r.maxSeg, s90 |-> r.eff[1] = 1, s180 |-> r.eff[2] = 1, sseg |-> r.eff[3] = 1,
+CfgOf(r) == [views |-> r.numViews, minSeg |-> r.minSeg, maxSeg |-> r.maxSeg, s90 |-> r.eff[1] = 1, s180 |-> r.eff[2] = 1, sseg |-> r.eff[3] = 1,
              minTof |-> r.minTof, maxTof |-> r.maxTof]
 
 (* the configuration the library arrived at must be one for which the documented symmetry       *)
@@ -25,7 +25,7 @@ ConfigOk(r) ==
   LET cc == CfgOf(r) IN
   /\ Legal(cc)
   /\ r.numViews = r.views /\ r.minView = 0 /\ r.maxView = r.numViews - 1
-  /\ r.maxSeg <= r.dataMaxSeg /\ r.dataMinSeg = -r.dataMaxSeg /\ r.minTof = -r.maxTof
+  /\ r.maxSeg <= r.dataMaxSeg /\ r.minSeg >= r.dataMinSeg /\ r.minTof = -r.maxTof
   /\ (cc.s90 => r.req[1] = 1) /\ (cc.s180 => (r.req[1] = 1 \/ r.req[2] = 1)) /\ (cc.sseg => r.req[3] = 1)
   /\ (~r.cartesian => (~cc.s90 /\ ~cc.s180 /\ ~cc.sseg))
 
@@ -93,17 +93,34 @@ SweepOk(r) ==
   LET lst == [i \in 1 .. Len(r.codes) |-> VSTOf(r.codes[i])] IN
   /\ ~r.err /\ NoDup(lst) /\ Range(lst) = AllData(c)
 
+(* "configuration that the library accepts": a call that announces an error before anything was read or written, for a   *)
+(* segment range that is not closed under the symmetries used, is a refusal, not a violation                         *)
+Refused(r) == r.err /\ Len(r.codes) = 0 /\ c.sseg /\ c.minSeg # -c.maxSeg
+
 Explains(r) ==
   CASE r.e = "ConfigRejected" -> TRUE
     [] r.e = "Basic" -> c # NoCfg /\ BasicOk(r)
     [] r.e = "Related" -> c # NoCfg /\ RelatedOk(r)
     [] r.e = "Subsets" -> c # NoCfg /\ SubsetsOk(r)
-    [] r.e = "Touched" -> c # NoCfg /\ TouchedOk(r)
-    [] r.e = "Sweep" -> c # NoCfg /\ SweepOk(r)
+    [] r.e = "Touched" -> c # NoCfg /\ (TouchedOk(r) \/ Refused(r))
+    [] r.e = "Sweep" -> c # NoCfg /\ (SweepOk(r) \/ Refused(r))
+    \* the objective function must accept every configuration with a symmetric segment range (the range it processes is
+    \* -max_segment_num_to_process..max_segment_num_to_process; data with another range may be refused with an error);
+    \* a child process that died inside the code under test ("Died") is never a legal behaviour
+    [] r.e = "ObjectiveRejected" -> c # NoCfg /\ r.err /\ c.minSeg # -c.maxSeg
+    [] r.e = "Died" -> FALSE
     [] OTHER -> FALSE
 
-\* no known finding is open for this property: everything unexplained is new
-Classify(r) == "new"
+\* An unexplained line is attributed to a known finding only by the configuration class named in
+\* known_findings.jsonl.  C06-asymseg: the segment range of the data is not symmetric (reduce_segment_range) and
+\* (a) the projector uses the swap-segment symmetry (segments without partner are silently skipped, or the partner
+\* outside the range is addressed: error / crash), or (b) the objective function processes -max..max
+\* (max_segment_num_to_process) instead of min..max.  Everything else is new.
+ObjectiveOps == {"grad", "value", "hess", "ahess", "sens", "osmaposl", "ossps"}
+Classify(r, cc) ==
+  IF cc # NoCfg /\ cc.minSeg # -cc.maxSeg
+     /\ (cc.sseg \/ r.e = "ObjectiveRejected" \/ (r.e = "Touched" /\ r.op \in ObjectiveOps))
+  THEN "C06-asymseg" ELSE "new"
 
 Init == l = 1 /\ c = NoCfg /\ isb = {} /\ rel = << >> /\ bad = << >>
 Next == /\ l <= Len(TraceLog)
@@ -112,7 +129,10 @@ Next == /\ l <= Len(TraceLog)
            /\ c' = IF r.e = "Config" THEN CfgOf(r) ELSE c
            /\ isb' = IF r.e = "Config" THEN {} ELSE IF r.e = "Basic" THEN { VSOf(r.isb[i]) : i \in 1 .. Len(r.isb) } ELSE isb
            /\ rel' = IF r.e = "Config" THEN << >> ELSE IF r.e = "Related" THEN RelOf(r) ELSE rel
-           /\ bad' = IF okr THEN bad ELSE IF Len(bad) < 500 THEN Append(bad, << l, Classify(r) >>) ELSE bad
+           /\ LET cls == IF okr THEN "ok" ELSE Classify(r, IF r.e = "Config" THEN CfgOf(r) ELSE c) IN
+              \* new unexplained lines are all kept (cap 500); of a known class only the first 20 witnesses
+              bad' = IF okr THEN bad
+                     ELSE IF Len(SelectSeq(bad, LAMBDA x : x[2] = cls)) < (IF cls = "new" THEN 500 ELSE 20) THEN Append(bad, << l, cls >>) ELSE bad
         /\ l' = l + 1
 Spec == Init /\ [][Next]_<< l, c, isb, rel, bad >>
 
